@@ -364,6 +364,20 @@ def run(ctx):
                                                        f"`{txt(store.targets[0].slice)}` only: a later topology with an equal key inherits an earlier topology's names")
                                 continue
                             a = store.value
+                        # the naming callback returns one name PER EDGE (a sequence): `[names]` stores that sequence itself as ONE name
+                        # (only a wrap CHOSEN by a conditional expression on the length: in the bare-edge branch of the pinned tree the callback's
+                        # result for a lone edge is wrapped by design)
+                        branches_ = [a.body, a.orelse] if isinstance(a, ast.IfExp) and "len(" in txt(a.test) else []
+                        nested_ = None
+                        for br_ in branches_:
+                            if isinstance(br_, ast.List) and len(br_.elts) == 1:
+                                e0_ = g.sc.resolve(br_.elts[0], keep=[es])
+                                if isinstance(e0_, ast.Call) and not e0_.args and isinstance(e0_.func, ast.Subscript) and txt(e0_.func.value) == "self._edge_names":
+                                    nested_ = br_
+                        if nested_ is not None:
+                            o5.violated(fn, n, f"`{txt(nested_)}` wraps what the naming callback returned: the callback yields a SEQUENCE with one name per edge, so the edge's topology "
+                                               "entry becomes that sequence (e.g. `('link',)`) instead of the name", shape_free=True)
+                            continue
                         if isinstance(a, ast.BinOp) and isinstance(a.op, ast.Mult):
                             a = a.left if isinstance(a.left, ast.List) else a.right
                         elems = a.elts if isinstance(a, ast.List) else [a]
